@@ -145,13 +145,15 @@ func runScenarios(c *Ctx, prop string, scs []LifeScenario, tags []string) {
 // successful dial, an unusable proxy URL - fires no event and leaves the client unconnected: Connected() is false,
 // Close does nothing, and once the cause is removed the same client connects, registers once and ends with one
 // DISCONNECTED. Judged by Spec.Life on the recorded history.
-func c06Refusals(c *Ctx) {
+func c06Refusals(c *Ctx, prop string) {
 	kinds := []string{"no-server", "dial-error", "tls-handshake", "bad-proxy-url"}
 	for i := 0; i < c.Pick(8, 40); i++ {
 		kind := kinds[i%len(kinds)]
 		track := c.R.Bool()
-		desc := fmt.Sprintf("Connect fails (%s), then Close, then the cause is removed and the same client connects (tracking=%v)", kind, track)
-		c.Journal("C06 refusal: " + desc)
+		// in every other run the application does not call Close after the failed attempt: it just tries again
+		withClose := (i/len(kinds))%2 == 0
+		desc := fmt.Sprintf("Connect fails (%s), then Close (%v), then the cause is removed and the same client connects (tracking=%v)", kind, withClose, track)
+		c.Journal(prop + " refusal: " + desc)
 		url, conns := memconn.Listen()
 		cfg := client.NewConfig("me", "ident", "Real")
 		cfg.Server, cfg.Proxy, cfg.Flood, cfg.PingFreq, cfg.Timeout = "irc.test", url, true, 0, 3*time.Second
@@ -201,10 +203,12 @@ func c06Refusals(c *Ctx) {
 		}
 		flagAfter := conn.Connected()
 		n := evCount()
-		conn.Close()
-		time.Sleep(2 * time.Millisecond)
-		if evCount() != n {
-			lg.add("close-when-closed fired events")
+		if withClose {
+			conn.Close()
+			time.Sleep(2 * time.Millisecond)
+			if evCount() != n {
+				lg.add("close-when-closed fired events")
+			}
 		}
 		// remove the cause
 		cfg.Server, cfg.Proxy, cfg.SSL = "irc.test", url, false
@@ -236,19 +240,19 @@ func c06Refusals(c *Ctx) {
 		lg.mu.Unlock()
 		toks, _ := lifeTokens(evs)
 		c.Res.Traces++
-		rp := map[string]interface{}{"op": "failed-connect", "kind": kind, "track": track, "log": evs}
+		rp := map[string]interface{}{"op": "failed-connect", "kind": kind, "track": track, "close_in_between": withClose, "log": evs}
 		if err == nil || flagAfter {
 			c.SpecFail("spec", desc, "", fmt.Sprintf("the failing Connect returned %v and left Connected() = %v", err, flagAfter), rp)
 		}
 		if err2 != nil {
 			c.SpecFail("spec", desc, "", "after the cause was removed the same client could not connect: "+err2.Error(), rp)
 		}
-		c.RunCases([]Case{{Desc: desc, Spec: []string{"spec06 1 " + toks}, Tag: "failed-connect/" + kind, Key: fmt.Sprintf("%s/%v/%d/%d", kind, track, i, c.Seed), Replay: rp}})
+		c.RunCases([]Case{{Desc: desc, Spec: []string{"spec06 1 " + toks}, Tag: "failed-connect/" + kind, Key: fmt.Sprintf("%s/%s/%v/%d/%d", prop, kind, track, i, c.Seed), Replay: rp}})
 	}
 }
 
 func c06(c *Ctx) {
-	c06Refusals(c)
+	c06Refusals(c, "C06")
 	causes := []string{"close", "eof", "readerr", "writeerr", "cancel", "close+eof", "close+writeerr", "cancel+eof", "close+cancel", "eof+writeerr"}
 	var scs []LifeScenario
 	var tags []string
@@ -282,6 +286,12 @@ func c06(c *Ctx) {
 	for _, tr := range []bool{false, true} {
 		scs = append(scs, LifeScenario{Cause: "close", Closers: 1, Flood: true, Track: tr, ConnectAgain: "early"})
 		tags = append(tags, "connect-again")
+	}
+	// two goroutines call Connect on a client that is down, the first one's dial still under way when the second calls:
+	// one connection results, one call is refused, and the life cycle of that one connection is as ever
+	for _, cause := range []string{"close", "eof", "cancel"} {
+		scs = append(scs, LifeScenario{Cause: cause, Closers: 1, Flood: true, UseCtx: true, OverlapConnect: true, AfterLines: 2, Track: cause == "eof"})
+		tags = append(tags, "overlapping-connects")
 	}
 	// the peer has stopped reading for good: a line is in flight inside the socket write, more are queued, a handler may be
 	// blocked on the queue; Close / cancellation must still complete (closing the socket is what releases the write)
@@ -326,6 +336,9 @@ func c06(c *Ctx) {
 }
 
 func c07(c *Ctx) {
+	// a failed attempt (no server, refused dial, TLS handshake failing after the dial, unusable proxy) is one of the ways a
+	// connection ends: the same client must be able to connect afterwards, with or without a Close in between
+	c06Refusals(c, "C07")
 	var scs []LifeScenario
 	var tags []string
 	causes := []string{"close", "eof", "readerr", "writeerr", "cancel", "close+eof"}
@@ -408,6 +421,12 @@ func c07(c *Ctx) {
 		}
 		scs = append(scs, sc)
 		tags = append(tags, tag)
+	}
+	// two goroutines call Connect on a client that is down, the first one's dial still under way when the second calls:
+	// one connection results, one call is refused, and the life cycle of that one connection is as ever
+	for _, cause := range []string{"close", "eof", "cancel"} {
+		scs = append(scs, LifeScenario{Cause: cause, Closers: 1, Flood: true, UseCtx: true, OverlapConnect: true, AfterLines: 2, Track: cause == "eof"})
+		tags = append(tags, "overlapping-connects")
 	}
 	// the peer has stopped reading for good: a line is in flight inside the socket write, more are queued, a handler may be
 	// blocked on the queue; Close / cancellation must still complete (closing the socket is what releases the write)
